@@ -5,7 +5,7 @@
 Require Import List ZArith QArith Qcanon.
 Require Import LV.Base.QcI LV.Interp.QOrd LV.Interp.RfiModel LV.Interp.SplineModel LV.Gen.RangeGen.
 Require Import LV.Interp.RfiProofs LV.Interp.SplineProofs LV.Interp.RangeProofs LV.Interp.RfiRational
-  LV.Interp.C10Lemmas.
+  LV.Interp.C10Lemmas LV.Interp.RfiWindow LV.Interp.RfiRationalN LV.Interp.RfiRationalEx.
 Import ListNotations.
 Local Open Scope Z_scope.
 
@@ -35,10 +35,105 @@ Theorem rfi_history_indep : forall eps cut xp yp n m, zlen xp = n -> zlen yp = n
 Proof. exact rfi_history_indep_l. Qed.
 Print Assumptions rfi_history_indep.
 
-(* 4. partial: two points (m = 2) reproduce k / (x + p), k and p complex, when neither the knot
-      tests nor the cut-off trigger.  NOT proved: m = 3 for (a + b x) / (c + x) (one concrete
-      instance only, rfi_rational3_instance), m = 4, 5, windows inside longer vectors. *)
-Theorem rfi_rational_partial : forall (eps cut x0 x1 x : Qc) (k p : qi),
+(* 4. rational reproduction.  rfi_full returns the value, the new hint and the recorded steps of the
+      recurrence (one (den, dx1*d[j], dx2*c[j+1]) per executed inner iteration; m(m-1)/2 when
+      the recurrence ran to completion, fewer when the cut-off `cabs(den) < 10 EPS` stopped it,
+      none when a knot test returned early).  step_ok cut t = the recorded denominator is non-zero
+      and not below the cut-off.
+      Order m = 2 on vectors of ANY length n >= 2: data k / (x_i + p), k and p complex, are
+      reproduced exactly at every x (inside, between, outside the knots), whatever the hint,
+      whenever the one step of the recurrence was performed with an admissible denominator. *)
+Theorem rfi_rational_order2 : forall eps cut xp yp n (k p : qi) x hint v s tr,
+  let f := fun t : Qc => qi_div k (qi_add (qx t) p) in
+  zlen xp = n -> zlen yp = n -> 2 <= n ->
+  (forall i, 0 <= i < n -> yat yp i = f (xat xp i) /\ qi_add (qx (xat xp i)) p <> qi0 /\ qre (f (xat xp i)) <> 0%Qc) ->
+  qi_add (qx x) p <> qi0 ->
+  rfi_full eps cut xp yp n 2 x hint = Some (v, s, tr) ->
+  length tr = 1%nat -> Forall (step_ok cut) tr -> v = f x.
+Proof. exact rfi_rational2_n. Qed.
+Print Assumptions rfi_rational_order2.
+
+(*    Order m = 3 on vectors of ANY length n >= 3: data (a + b x_i) / (c + x_i) with complex a, b, c
+      are reproduced exactly, whichever three-point window is selected (left edge, interior,
+      right edge) and whichever of its points is nearest, whenever the three steps of the
+      recurrence were performed with admissible denominators.  (The hypothesis on the real parts
+      is the modelled rounding effect of `yp[i] + EPS`, see RfiModel.add_eps.) *)
+Theorem rfi_rational_order3 : forall eps cut xp yp n (a b c : qi) x hint v s tr,
+  let f := fun t : Qc => qi_div (qi_add a (qi_mul b (qx t))) (qi_add c (qx t)) in
+  zlen xp = n -> zlen yp = n -> 3 <= n ->
+  (forall i, 0 <= i < n -> yat yp i = f (xat xp i) /\ qi_add c (qx (xat xp i)) <> qi0 /\ qre (f (xat xp i)) <> 0%Qc) ->
+  qi_add c (qx x) <> qi0 ->
+  rfi_full eps cut xp yp n 3 x hint = Some (v, s, tr) ->
+  length tr = 3%nat -> Forall (step_ok cut) tr -> v = f x.
+Proof. exact rfi_rational3_n. Qed.
+Print Assumptions rfi_rational_order3.
+
+(*    What makes these independent of n: once the knot tests have not returned, the value and the
+      recorded steps are those of the recurrence on the selected m-point window alone (all m). *)
+Theorem rfi_depends_on_window_only : forall eps cut xp yp n m x hint v s tr,
+  zlen xp = n -> zlen yp = n -> 1 <= m <= n ->
+  rfi_full eps cut xp yp n m x hint = Some (v, s, tr) -> tr <> [] ->
+  exists base cur, 0 <= base <= n - m /\ 0 <= cur < m /\
+    bs_core eps cut m (window xp base m) (window yp base m) x cur = Some (v, tr).
+Proof. exact rfi_full_window_inv. Qed.
+Print Assumptions rfi_depends_on_window_only.
+
+(*    The same two theorems with every hypothesis decidable (data = map f xp). *)
+Theorem rfi_rational_order2_decidable : forall eps cut xp (k p : qi) x hint,
+  2 <= zlen xp -> data_okb (rat2 k p) (fun t => qi_add (qx t) p) xp = true -> qi_nzb (qi_add (qx x) p) = true ->
+  match rfi_full eps cut xp (map (rat2 k p) xp) (zlen xp) 2 x hint with
+  | Some (v, _, tr) => (length tr =? 1)%nat && forallb (step_okb cut) tr = true -> v = rat2 k p x
+  | None => True
+  end.
+Proof. exact rfi_rational2_dec. Qed.
+Print Assumptions rfi_rational_order2_decidable.
+
+Theorem rfi_rational_order3_decidable : forall eps cut xp (a b c : qi) x hint,
+  3 <= zlen xp -> data_okb (rat3 a b c) (fun t => qi_add c (qx t)) xp = true -> qi_nzb (qi_add c (qx x)) = true ->
+  match rfi_full eps cut xp (map (rat3 a b c) xp) (zlen xp) 3 x hint with
+  | Some (v, _, tr) => (length tr =? 3)%nat && forallb (step_okb cut) tr = true -> v = rat3 a b c x
+  | None => True
+  end.
+Proof. exact rfi_rational3_dec. Qed.
+Print Assumptions rfi_rational_order3_decidable.
+
+(*    Non-vacuity over Q[i]: knots 1, 2, 7/2, 5, 8; f(t) = ((1+2i) + (3-i) t) / ((5+i) + t);
+      EPS = 1e-25.  The hypotheses hold ... *)
+Theorem rfi_rational_order3_satisfiable :
+  let f := rat3 ex_a ex_b ex_c in
+  zlen ex_xp = 5 /\ zlen (map f ex_xp) = 5 /\
+  (forall i, 0 <= i < 5 -> yat (map f ex_xp) i = f (xat ex_xp i) /\ qi_add ex_c (qx (xat ex_xp i)) <> qi0 /\
+                          qre (f (xat ex_xp i)) <> 0%Qc) /\
+  qi_add ex_c (qx (qz 3)) <> qi0 /\
+  exists v s tr, rfi_full eps25 cut25 ex_xp (map f ex_xp) 5 3 (qz 3) 4 = Some (v, s, tr) /\
+                 length tr = 3%nat /\ Forall (step_ok cut25) tr /\ v = f (qz 3) /\ ~ In (qz 3) ex_xp.
+Proof. exact rfi_rational3_satisfiable. Qed.
+Print Assumptions rfi_rational_order3_satisfiable.
+
+(*    ... and for the eight queries 1/2, 3/2, 3, 4, 6, 9, 3.501, 4.999 (left of all knots, window at
+      the left edge, interior, right edge, right of all knots, 1/1000 from a knot) and the hints
+      -3, 0, 1, 3, 4, 9 the recurrence completes with admissible denominators and the value is
+      exactly f(x); likewise order 2 with f(t) = (3+i) / (t + (2-i)). *)
+Theorem rfi_rational_order3_example :
+  map (fun x => window_of 3 ex_xp x 0) ex_qs = [Some 0; Some 0; Some 1; Some 1; Some 2; Some 2; Some 1; Some 2] /\
+  forallb (fun h => forallb (fun x =>
+     complete_and_exact 3 (rat3 ex_a ex_b ex_c) x
+       (rfi_full eps25 cut25 ex_xp (map (rat3 ex_a ex_b ex_c) ex_xp) 5 3 x h)) ex_qs) ex_hints = true.
+Proof. exact (conj ex_windows3 ex_rational3_value). Qed.
+Print Assumptions rfi_rational_order3_example.
+
+Theorem rfi_rational_order2_example :
+  map (fun x => window_of 2 ex_xp x 0) ex_qs = [Some 0; Some 0; Some 1; Some 2; Some 3; Some 3; Some 2; Some 2] /\
+  data_okb (rat2 ex_k ex_p) (fun t => qi_add (qx t) ex_p) ex_xp = true /\
+  forallb (fun h => forallb (fun x =>
+     complete_and_exact 1 (rat2 ex_k ex_p) x
+       (rfi_full eps25 cut25 ex_xp (map (rat2 ex_k ex_p) ex_xp) 5 2 x h)) ex_qs) ex_hints = true.
+Proof. exact (conj ex_windows2 (conj (proj1 (proj2 ex_rational2_hyps)) ex_rational2_value)). Qed.
+Print Assumptions rfi_rational_order2_example.
+
+(*    Two points exactly (n = m = 2), hypotheses on the inputs only: when neither knot test nor the
+      cut-off triggers the call returns k / (x + p) (this one also states that it returns). *)
+Theorem rfi_rational_two_points : forall (eps cut x0 x1 x : Qc) (k p : qi),
   k <> qi0 -> qi_sub (qx x1) (qx x0) <> qi0 ->
   qi_add (qx x0) p <> qi0 -> qi_add (qx x1) p <> qi0 -> qi_add (qx x) p <> qi0 ->
   qre (qi_div k (qi_add (qx x0) p)) <> 0%Qc -> qre (qi_div k (qi_add (qx x1) p)) <> 0%Qc ->
@@ -49,7 +144,23 @@ Theorem rfi_rational_partial : forall (eps cut x0 x1 x : Qc) (k p : qi),
     rfi_full eps cut [x0; x1] [qi_div k (qi_add (qx x0) p); qi_div k (qi_add (qx x1) p)] 2 2 x hint
     = Some (qi_div k (qi_add (qx x) p), 0, tr).
 Proof. exact rfi_rational2_l. Qed.
-Print Assumptions rfi_rational_partial.
+Print Assumptions rfi_rational_two_points.
+
+(*    PARTIAL with respect to the property ("any low-order rational function"): the callers use
+      orders up to VNACAL_MAX_M = 5.  Orders 4 (type 1/2) and 5 (type 2/2) are NOT proved - a proof
+      for general m needs the theory of the Stoer-Bulirsch recurrence (existence / uniqueness of
+      rational interpolants); the direct method used for m <= 3 (a hand-made factorisation of the
+      recorded denominators + `field`, 35 s for m = 3) was not attempted for six nested denominators.  The
+      model is only evaluated on concrete data of those types (seven knots, six queries, three
+      hints: the value is exact), and the correspondence compares the code with the model on
+      'rat' data numerically. *)
+Theorem rfi_rational_orders_4_5_instances_only :
+  forallb (fun h => forallb (fun x =>
+     complete_and_exact 6 rat4 x (rfi_full eps25 cut25 ex_xp7 (map rat4 ex_xp7) 7 4 x h)) ex_qs7) [-1; 2; 6] = true /\
+  forallb (fun h => forallb (fun x =>
+     complete_and_exact 10 rat5 x (rfi_full eps25 cut25 ex_xp7 (map rat5 ex_xp7) 7 5 x h)) ex_qs7) [-1; 2; 6] = true.
+Proof. exact (conj rfi_rational4_instance rfi_rational5_instance). Qed.
+Print Assumptions rfi_rational_orders_4_5_instances_only.
 
 (* 5. spline: n >= 1 segments (n + 1 points, two-point vectors included), any coefficients *)
 Theorem spline_at_knot : forall xs ys n, 1 <= n ->
